@@ -78,7 +78,7 @@ func LoadProgram(dir, specDir string) (*Program, error) {
 	}
 	// index repo functions
 	for fn := range ssautil.AllFunctions(prog) {
-		if !p.isRepoFunc(fn) || fn.Blocks == nil || fn.Synthetic != "" {
+		if !p.isRepoFunc(fn) || fn.Blocks == nil || (fn.Synthetic != "" && fn.Name() != "init") {
 			continue
 		}
 		id := p.FuncIDOf(fn)
@@ -157,6 +157,11 @@ func (p *Program) funcIDOf(fn *ssa.Function) string {
 			id += "$bound"
 		} else if strings.Contains(fn.Synthetic, "thunk") {
 			id += "$thunk"
+		}
+	} else if fn.Pkg != nil && fn.Name() == "init" {
+		id = fn.Pkg.Pkg.Name() + ".init"
+		if !strings.HasPrefix(fn.Pkg.Pkg.Path(), modulePath) {
+			id = fn.Pkg.Pkg.Path() + ".init"
 		}
 	} else {
 		id = fn.String()
@@ -246,9 +251,16 @@ func (p *Program) calleeIDNoLock(c *ssa.CallCommon) (string, *ssa.Function) {
 
 // lookupContract: exact id, then the interface contract an implementation inherits is handled elsewhere,
 // then wildcard entries "pkg.*" / "pkg.Type.*".
+var pureInit = &FuncContract{ID: "*.init", Pure: true, IsSpec: true, Loops: map[int]*LoopContract{}}
+
 func (p *Program) lookupContract(id string) *FuncContract {
 	if id == "" {
 		return nil
+	}
+	if strings.HasSuffix(id, ".init") {
+		if _, repo := p.Funcs[id]; !repo {
+			return pureInit
+		}
 	}
 	if fc, ok := p.Contracts.Funcs[id]; ok {
 		return fc
@@ -290,6 +302,66 @@ func (p *Program) allocBound(id string) int64 {
 }
 
 func (p *Program) SpecPrelude() string { return p.specPrelude }
+
+// globalWriters: repo functions (other than init) that store to a package-level variable or update a
+// map loaded directly from it. A global with an invariant must have none.
+func (p *Program) globalWriters(pkg, name string) []string {
+	var out []string
+	isG := func(v ssa.Value) bool {
+		g, ok := v.(*ssa.Global)
+		return ok && g.Name() == name && g.Pkg.Pkg.Name() == pkg
+	}
+	fromG := func(v ssa.Value) bool {
+		if u, ok := v.(*ssa.UnOp); ok {
+			return isG(u.X)
+		}
+		return false
+	}
+	for id, fn := range p.Funcs {
+		if fn.Name() == "init" && fn.Synthetic != "" {
+			continue
+		}
+		for _, b := range fn.Blocks {
+			for _, in := range b.Instrs {
+				switch x := in.(type) {
+				case *ssa.Store:
+					root := x.Addr
+					for {
+						if fa, ok := root.(*ssa.FieldAddr); ok {
+							root = fa.X
+							continue
+						}
+						if ia, ok := root.(*ssa.IndexAddr); ok {
+							root = ia.X
+							continue
+						}
+						break
+					}
+					if isG(root) {
+						out = append(out, id)
+					}
+				case *ssa.MapUpdate:
+					if fromG(x.Map) {
+						out = append(out, id)
+					}
+				case ssa.CallInstruction:
+					c := x.Common()
+					if bi, ok := c.Value.(*ssa.Builtin); ok && (bi.Name() == "delete" || bi.Name() == "clear") && len(c.Args) > 0 && fromG(c.Args[0]) {
+						out = append(out, id)
+					}
+					// address of the global escaping into a call
+					for _, a := range c.Args {
+						if isG(a) {
+							out = append(out, id+" (address passed to a call)")
+						}
+					}
+				}
+			}
+		}
+	}
+	sort.Strings(out)
+	return out
+}
 
 // implementers returns repo methods implementing the interface method id "pkg.Iface.Method".
 func (p *Program) ifaceOf(fn *ssa.Function) []string {
